@@ -147,13 +147,61 @@ func genC08(r *rand.Rand, run int, tier string) *vm.Plan {
 	return h.p
 }
 
+// genC08Directed: base histories of C08's stall sweep. Two siblings of one parent; the same request
+// is put to sibling B before and after a (to be stalled) evaluation on sibling A; the sweep places
+// the deadline at every scheduler step and lets what A's evaluation leaves behind run on.
+func genC08Directed(r *rand.Rand, run int) *vm.Plan {
+	h := newHist(r, 1, false)
+	g := h.g
+	key := h.issuers[0]
+	v := ref.Var
+	auth := g.BlockFor(nil, 2, 1, 0)
+	n := 2 + r.Intn(3)
+	for i := 0; i < n; i++ {
+		auth.Facts = append(auth.Facts, ref.Pred{Name: "unit", Terms: []ref.Term{ref.Int(int64(i))}})
+	}
+	t := h.build(key, auth, nil)
+	a := h.attenuate(t, ref.Block{Rules: []ref.Rule{{Head: ref.Pred{Name: "granted", Terms: []ref.Term{v("a")}}, Body: []ref.Pred{{Name: "unit", Terms: []ref.Term{v("a")}}, {Name: "unit", Terms: []ref.Term{v("b")}}}}},
+		Checks: []ref.Check{{Queries: []ref.Rule{{Head: ref.Pred{Name: "query"}, Body: []ref.Pred{{Name: "granted", Terms: []ref.Term{v("x")}}}}}}}})
+	b := h.attenuate(t, ref.Block{Checks: []ref.Check{{Queries: []ref.Rule{{Head: ref.Pred{Name: "query"}, Body: []ref.Pred{{Name: "granted", Terms: []ref.Term{ref.Int(int64(r.Intn(n)))}}}}}}}})
+	lim := &vm.Lim{MaxDurNs: 2e6}
+	// the authorizer derives "granted" itself for A's request, nothing for B's
+	azA := ref.Authz{Rules: []ref.Rule{{Head: ref.Pred{Name: "granted", Terms: []ref.Term{v("a")}}, Body: []ref.Pred{{Name: "unit", Terms: []ref.Term{v("a")}}, {Name: "unit", Terms: []ref.Term{v("b")}}}}},
+		Policies: []ref.Policy{{Allow: true, Queries: []ref.Rule{gen.TrueQuery()}}}}
+	azB := ref.Authz{Policies: []ref.Policy{{Allow: true, Queries: []ref.Rule{{Head: ref.Pred{Name: "query"}, Body: []ref.Pred{{Name: "granted", Terms: []ref.Term{v("x")}}}}}}, {Allow: false, Queries: []ref.Rule{gen.TrueQuery()}}}}
+	qB := []ref.Rule{{Head: ref.Pred{Name: "granted", Terms: []ref.Term{v("x")}}, Body: []ref.Pred{{Name: "granted", Terms: []ref.Term{v("x")}}}}}
+	h.add(vm.Op{K: "verify", A: b, KS: &vm.KeySel{Key: key}, Az: &azB, Qs: qB, Lim: lim, Name: "behaviour-b"})
+	h.add(vm.Op{K: "verify", A: a, KS: &vm.KeySel{Key: key}, Az: &azA, Lim: lim})
+	if run%2 == 0 {
+		h.add(vm.Op{K: "verify", A: a, KS: &vm.KeySel{Key: key}, Az: &azA, Lim: lim})
+	}
+	h.add(vm.Op{K: "verify", A: b, KS: &vm.KeySel{Key: key}, Az: &azB, Qs: qB, Lim: lim, Name: "behaviour-b"})
+	h.add(vm.Op{K: "print", A: b})
+	h.p.Note = "directed"
+	return h.p
+}
+
+func c08SweepN(tier string) int {
+	if tier == "thorough" {
+		return 80
+	}
+	return 8
+}
+
 func init() {
 	register(&Spec{
 		ID: "C08", Level: "exploration", Quick: 2500, Thorough: 250000,
 		Rule: "interleaved histories (6-40 steps) over a growing family of tokens, token builders, block builders and built blocks sharing ancestors: create-block (several builders alive per parent), add to builder A / builder B, build block, append, build a token again from a used builder, seal, serialize, reload, get-block-id with fresh symbols, authorize, print. After EVERY step the fingerprint (String, Code, serialized bytes, revocation ids, block count, root key id, context) of EVERY live token and built block is recomputed and must be unchanged; on creation each token's bytes are decoded independently and must equal what its own callers put in. non-trivial = at least two live objects were re-fingerprinted after a deriving step (distinct by plan hash)",
-		Gen: genC08,
+		Gen: func(r *rand.Rand, run int, tier string) *vm.Plan {
+			if run < c08SweepN(tier) {
+				return genC08Directed(r, run)
+			}
+			return genC08(r, run, tier)
+		},
+		Sweep:  sweepStallsLazy,
+		SweepN: c08SweepN,
 		Oracles: func(m *vm.VM) []vm.Oracle {
-			return []vm.Oracle{vm.Common{Prop: "C08"}, vm.ImmutOracle{Prop: "C08"}, vm.AgreeOracle{Prop: "C08", Invariant: "authorization-behaviour-changed", Failed: true, SameAz: true}, vm.RootIDOracle{}, vm.RevocationOracle{}, vm.WireOracle{}}
+			return []vm.Oracle{vm.Common{Prop: "C08"}, vm.ImmutOracle{Prop: "C08"}, vm.AgreeOracle{Prop: "C08", Invariant: "authorization-behaviour-changed", Failed: true, Queries: true, SameAz: true}, vm.RootIDOracle{}, vm.RevocationOracle{}, vm.WireOracle{}}
 		},
 		Nontrivial: func(res *vm.Result) bool { return res.Probes["immut_checked_2plus_live_objects"] > 0 },
 		Real:       realAll, Simulated: simAll[2:4], Assumptions: assumeAll[:2],
